@@ -24,7 +24,8 @@ def small_arg(rng):
     if c < 0.4:
         return {'i': str(rng.choice([0, 1, 2, 3, 5, 11]))}
     if c < 0.6:
-        return {'s': rng.choice(['a', 'b', 'x y', 'q"uote', 'é'])}
+        # (argument texts that look like aliases / key fragments: a key is built from texts, it must not confuse them)
+        return {'s': rng.choice(['a', 'b', 'x y', 'q"uote', 'é', 'fetch', 'load', 'cfg', 'in0', 'input: fetch', 'fetch args='])}
     if c < 0.7:
         return None
     if c < 0.8:
